@@ -546,11 +546,13 @@ func genResults(t *rapid.T, pf Profile, p *Project, c *Controller, m *Method, ty
 	if types != nil && rapid.IntRange(0, 3).Draw(t, "customErr") == 0 {
 		// Custom error types live in the controller's own package: gleece resolves the error type
 		// inside the package of the method that returns it (see finding F-C10-3 for the other case).
-		if p.FindType(c.Pkg, "ApiError") == nil {
-			p.Types = append(p.Types, &TypeDecl{Name: "ApiError", Pkg: c.Pkg, File: "errors.go", Kind: "struct", EmbedsError: true,
+		// type names are unique across packages (gleece keys components by bare name)
+		errName := "ApiError" + strings.ToUpper(pkgAlias(c.Pkg)[:1]) + pkgAlias(c.Pkg)[1:]
+		if p.FindType(c.Pkg, errName) == nil {
+			p.Types = append(p.Types, &TypeDecl{Name: errName, Pkg: c.Pkg, File: "errors.go", Kind: "struct", EmbedsError: true,
 				Fields: []Field{{Name: "Code", Type: Prim("int"), JSON: "code"}, {Name: "Reason", Type: Prim("string")}}})
 		}
-		e := Named(c.Pkg, "ApiError")
+		e := Named(c.Pkg, errName)
 		if rapid.Bool().Draw(t, "errPtr") {
 			e = Ptr(e)
 		}
